@@ -1490,10 +1490,10 @@ def run_positional(case):
             continue
         out["steps"].append({"step": step, "doc": doc})
         # an entry of the process-wide cache must never change once it is filed
-        for k, v in list(real_cache.items()):
-            if k[0] in (A, B, H):
+        for k in [(c, "", cm) for c in (A, B, H) for cm in (False, True)]:      # direct probes: the cache is large
+            if k in real_cache:
                 key = (k[0].__name__[:2],) + tuple(k[1:])
-                text = json.dumps(mapper_to_wire(v), sort_keys=True)
+                text = json.dumps(mapper_to_wire(real_cache[k]), sort_keys=True)
                 if key in filed and filed[key] != text:
                     out.setdefault("cache_mutated", []).append([str(key), filed[key], text, step])
                 filed.setdefault(key, text)
